@@ -43,7 +43,7 @@ def gen(rng, tier, ctx):
     nd = rng.choice([1, 1, 2, 2, 3, 4])
     descs = []
     for i in range(nd):
-        tag, e = common.pick_desc(rng, ctx, allow_bad=(klass != "plain" or rng.random() < 0.3))
+        tag, e = common.pick_desc(rng, ctx, allow_bad=(klass != "plain" or rng.random() < 0.3), big_ok=True)
         d = {"desc": e, "tag": tag}
         descs.append(d)
     # a variant that shares the transition-list object of another description
@@ -53,7 +53,12 @@ def gen(rng, tier, ctx):
         if isinstance(base.get("rewards"), list) and base["rewards"]:
             var = copy.deepcopy(base)
             k = rng.randrange(len(var["rewards"]))
-            if isinstance(var["rewards"][k], (int, float)):
+            owners = [i for i, pl in enumerate(var.get("players", [])) if pl in ("Player 1", "Player 2")]
+            if owners and rng.random() < 0.5:
+                # same graph, same finals, one state handed to the other player
+                i = rng.choice(owners)
+                var["players"][i] = "Player 2" if var["players"][i] == "Player 1" else "Player 1"
+            elif isinstance(var["rewards"][k], (int, float)):
                 var["rewards"][k] = var["rewards"][k] + rng.randint(1, 3)
             descs[nd - 1] = {"desc": enc(var), "tag": descs[src]["tag"] + "+variant", "share_tl_with": src}
             if rng.random() < 0.5:
